@@ -154,6 +154,58 @@ func c07UnderExtensions() Harness {
 	}
 }
 
+// c07ManyEntities: messages of 13..100 entities in which trip updates, alerts and vehicle
+// positions alternate: alerts keep their relative feed order, trips and vehicles are those of the
+// order-independent reference, in the given order, reversed and rotated.
+func c07ManyEntities(c *Ctx) {
+	n := []int{12, 13, 14, 25, 40, 100}[c.Free("entities", 6)]
+	order := c.Free("order", 3)
+	var ents []*gtfsrt.FeedEntity
+	for i := 0; i < n; i++ {
+		switch i % 3 {
+		case 0:
+			ents = append(ents, &gtfsrt.FeedEntity{Id: sp(fmt.Sprintf("tu%03d", i)), TripUpdate: &gtfsrt.TripUpdate{Trip: &gtfsrt.TripDescriptor{TripId: sp(fmt.Sprintf("T%03d", (i*7)%n))},
+				Vehicle: &gtfsrt.VehicleDescriptor{Id: sp(fmt.Sprintf("V%03d", (i*7)%n))}, StopTimeUpdate: []*gtfsrt.TripUpdate_StopTimeUpdate{{StopId: sp(fmt.Sprintf("S%d", i))}}}})
+		case 1:
+			ents = append(ents, &gtfsrt.FeedEntity{Id: sp(fmt.Sprintf("alert-%03d", i)), Alert: &gtfsrt.Alert{InformedEntity: []*gtfsrt.EntitySelector{{StopId: sp(fmt.Sprintf("AS%d", i))}},
+				HeaderText: &gtfsrt.TranslatedString{Translation: []*gtfsrt.TranslatedString_Translation{{Text: sp(fmt.Sprintf("alert %d", i))}}}}})
+		case 2:
+			ents = append(ents, &gtfsrt.FeedEntity{Id: sp(fmt.Sprintf("vp%03d", i)), Vehicle: &gtfsrt.VehiclePosition{Vehicle: &gtfsrt.VehicleDescriptor{Id: sp(fmt.Sprintf("W%03d", i))}, StopId: sp(fmt.Sprintf("VS%d", i))}})
+		}
+	}
+	switch order {
+	case 1:
+		for i, j := 0, len(ents)-1; i < j; i, j = i+1, j-1 {
+			ents[i], ents[j] = ents[j], ents[i]
+		}
+	case 2:
+		ents = append(ents[n/2:], ents[:n/2]...)
+	}
+	m := newFeed(cp(&tsAlphabet[0]))
+	m.Entity = ents
+	b := marshalFeed(m)
+	c.Input(hash64(string(b)), true, func() string {
+		return fmt.Sprintf("%d entities (trip update, alert, vehicle position alternating), order %d", n, order)
+	})
+	r, err, ok := parseRT(c, b, &gtfs.ParseRealtimeOptions{})
+	if !ok {
+		return
+	}
+	if err != nil {
+		c.Fail("valid-message-rejected", "%v", err)
+		return
+	}
+	c.Steps(n)
+	want := refParse(m, nil)
+	wd := dumpRealtime(want.rt, rtDumpOpts{sortVehicles: true})
+	gd := dumpRealtime(r, rtDumpOpts{sortVehicles: true})
+	c.Outcome(gd)
+	if wd != gd {
+		c.Fail("merge:"+firstDiffKind(wd, gd), "result differs from the order-independent reference (alerts in feed order)\n%s", diffLines(wd, gd))
+	}
+	c.Witness("message_of_many_entities")
+}
+
 // c07IdentifierOrder: trips whose identifiers differ in exactly one component of the key
 // (or are equal up to a later component), in every order of the entities: Trips must come out
 // strictly increasing in the documented order, and identical for every permutation.
@@ -171,6 +223,8 @@ func c07IdentifierOrder(c *Ctx) {
 		{TripId: sp("T"), RouteId: sp("R"), StartTime: sp("33:00:00")}, // ... and than 09:00:00
 		{TripId: sp("T"), RouteId: sp("R"), StartDate: sp("20240102")},
 		{TripId: sp("T"), RouteId: sp("R"), StartDate: sp("20240101")},
+		{TripId: sp("T"), RouteId: sp("R"), StartDate: sp("20241231")}, // the last day of a year sorts before ...
+		{TripId: sp("T"), RouteId: sp("R"), StartDate: sp("20250101")}, // ... the first day of the next
 		{TripId: sp("T"), RouteId: sp("R"), StartTime: sp("10:00:00"), StartDate: sp("20240101")},
 		{TripId: sp("T"), RouteId: sp("R"), ScheduleRelationship: &added},
 		{TripId: sp("T"), RouteId: sp("Q")},
@@ -229,7 +283,7 @@ func init() {
 	register(&Check{
 		ID:    "C07",
 		Level: "model_checking",
-		Rule: "1 pair whose vehicle position carries 4 sets of optional fields and whose entities may be flagged is_deleted; an NYCT message (stale unassigned trip as trip update + vehicle position, assigned trip as trip update + vehicle position, elevator alert) in all 120 entity orders under 8 configurations (nil, 4 nycttrips, 3 nyctalerts): one dump per configuration; association messages (1 pair + extras, 2 pairs; thorough: 2 pairs + extras) in ALL n! entity orders (n<=5; 4 orders beyond) x all map rotations, plus the same with conflicting duplicates (invariants only); plus every 4-subset of 13 trip descriptors that differ in one identifier component each (direction, start time, start date, schedule relationship, route, id) in all 24 orders; " +
+		Rule: "messages of 12..100 alternating trip updates / alerts / vehicle positions in 3 orders (alerts keep their feed order); 1 pair whose vehicle position carries 4 sets of optional fields and whose entities may be flagged is_deleted; an NYCT message (stale unassigned trip as trip update + vehicle position, assigned trip as trip update + vehicle position, elevator alert) in all 120 entity orders under 8 configurations (nil, 4 nycttrips, 3 nyctalerts): one dump per configuration; association messages (1 pair + extras, 2 pairs; thorough: 2 pairs + extras) in ALL n! entity orders (n<=5; 4 orders beyond) x all map rotations, plus the same with conflicting duplicates (invariants only); plus every 4-subset of 13 trip descriptors that differ in one identifier component each (direction, start time, start date, schedule relationship, route, id) in all 24 orders; " +
 			"non-trivial = distinct messages with >= 2 entities; oracles = cross-execution relation (message up to order -> dump), order-independent reference, sortedness/uniqueness invariants",
 		Assumptions: []string{"the identifier order is the documented field order (id, route, direction, start time, start date, schedule relationship)"},
 		Scenarios: func(tier string) []*Scenario {
@@ -240,6 +294,7 @@ func init() {
 				{Name: "one-pair-with-optional-fields-and-deleted-entities", Bound: -1, Run: c07HarnessV(1, false, false, 3)},
 				{Name: "identifier-order", Bound: -1, Run: c07IdentifierOrder},
 				{Name: "orders-under-extensions", Bound: -1, Run: c07UnderExtensions()},
+				{Name: "many-entities", Bound: -1, Run: c07ManyEntities},
 			}
 			if tier == "thorough" {
 				s = append(s, &Scenario{Name: "two-pairs+extras", Bound: -1, Run: c07Harness(2, true, false)},
